@@ -125,6 +125,30 @@ CLAIMS = {
        "(ThreadedMailboxProcessor.iter etc.) is not yet under contract.",
   technique="contract-based deductive verification of exceptional postconditions (ghost flags for kill/close calls) + structural obligations",
   design_ref="DESIGN.md section 6, C06"),
+ "C03": dict(
+  category="proof",
+  text="Contract-based deductive proof over the real source of the saving bookkeeping: Saver.save records exactly the chunk's number, "
+       "row count, range, run id, subruns, byte size and first/last row times, writes a file exactly for non-empty chunks and returns "
+       "the backend's future; Saver.close sets the completion marker, records an exception iff one is being handled, takes overall "
+       "start/end from the first/last chunk and finalises the backend exactly once after the closed flag; Saver.save_from saves every "
+       "chunk it gets from the rechunker exactly once under consecutive numbers, tracks every write future, and closes exactly once. "
+       "Bit-identical rows, boundaries and metadata through the real compressors / file backend are a bounded stand-in.",
+  note="Backend hooks (_save_chunk, _save_chunk_metadata, _close) are abstract in the proofs; FileSaver's file layout, the codecs, "
+       "StorageBackend._read_and_format_chunk and the Rechunker are covered by bounded stand-ins only (labelled).",
+  technique="contract-based deductive verification (ghost records of the metadata handed to the backend, ghost sets of write futures) + bounded round-trip stand-in",
+  design_ref="DESIGN.md section 6 (C03) and 10"),
+ "C04": dict(
+  category="proof",
+  text="Exceptional contracts of saving, proved over the real source: on every failure path of Saver.save_from closing is still "
+       "attempted, the failure is remembered and thrown back into the source before being re-raised, a MailboxKilled ends the saver "
+       "without re-raise; on the normal path the data is finalised only after every submitted chunk write has finished AND has been "
+       "checked for an exception (a failed write is never reported as success - this obligation failed on the original tree, defect F3, "
+       "now fixed); Saver.close never finalises after unfinished writes. The file-system level (temp directory, renames, retry after a "
+       "fault) is a bounded fault enumeration with a failing file-system shim on the real FileSaver and both processors.",
+  note="Not covered: abrupt process death inside an OS call, forked (inlined) savers, savers closed by other threads. Known finding F20 "
+       "(an OSError at creation of the storage parent directory is treated as 'frontend cannot save') is reported as KNOWN-FINDING.",
+  technique="contract-based deductive verification of exceptional postconditions + bounded fault enumeration",
+  design_ref="DESIGN.md section 6 (C04) and 10"),
 }
 
 NA_REASON = "check not built yet (see DESIGN.md section 6 for the plan)"
